@@ -48,7 +48,7 @@ Print Assumptions C02_internal_failure_rejected.
 
 (* Non-vacuity: a failing call by a first-time sender with a fee, events on. *)
 Example C02_example :
-  let cfg := {| cfg_fee := true; cfg_events := true; cfg_miner := 0 |} in
+  let cfg := {| cfg_fee := true; cfg_events := true; cfg_miner := 0; cfg_strict_ids := false |} in
   let A b n := {| ac_bal := b; ac_nonce := n; ac_txn := -1; ac_round := 0 |} in
   let st := {| st_accts := [(0, A 7 0); (1, A 50 0); (3, A 100 0)]; st_nodes := [(2, 5)] |} in
   let tx := {| tx_hash := 9; tx_type := TSC; tx_from := 3; tx_to := 1; tx_value := 40; tx_fee := 4; tx_nonce := 1 |} in
